@@ -480,10 +480,10 @@ def m_mapv(eng, callee, args):
     return ND(elementwise(a, lambda x: eng.call_closure(args[1], [clone_val(x)])))
 
 
-@model(r"impl_methods::<impl ArrayBase<.*>>::(axis_iter|axis_iter_mut)$", "axis_iter: views along the axis, in order")
+@model(r"impl_methods::<impl ArrayBase<.*>>::(axis_iter|axis_iter_mut|outer_iter|outer_iter_mut)$", "axis_iter / outer_iter: views along the axis, in order")
 def m_axis_iter(eng, callee, args):
     a = nd(args[0]).a
-    ax = axis_of(args[1])
+    ax = 0 if "outer_iter" in callee else axis_of(args[1])
     out = []
     for i in range(a.shape[ax]):
         idx = [slice(None)] * a.ndim
